@@ -100,6 +100,10 @@ func setRejoinContext(ctx *context) error {
 }
 
 func createRejoinAnsPayload(ctx *context) error {
+	if ctx.rejoinReqPayload.RxDelay < 0 || ctx.rejoinReqPayload.RxDelay > 15 {
+		return fmt.Errorf("RxDelay must be between 0 and 15, got %d", ctx.rejoinReqPayload.RxDelay)
+	}
+
 	var cFList *lorawan.CFList
 	if len(ctx.rejoinReqPayload.CFList[:]) != 0 {
 		cFList = new(lorawan.CFList)
